@@ -238,7 +238,8 @@ theorem open_plainG (g : LayoutG) (hF : g.Fits) (hR : g.base.Readable) (h64 : g.
     (by omega) (by omega) hnfE
   have hle : (eocdOfG g).cdSize.toNat + (eocdOfG g).cdOffset.toNat ≤ g.eocdPos := by omega
   obtain ⟨q1, hq1⟩ := runs_getDirectoryCounts_plain (B := buildG g) (footer := eocdOfG g)
-    (cdeStart := g.eocdPos) (p0 := g.eocdPos + 22 + g.base.comment.length) hnfL hle
+    (cdeStart := g.eocdPos) (p0 := g.eocdPos + 22 + g.base.comment.length) hnfL
+    (by intro _; have hcm : (eocdOfG g).comment = g.base.comment := rfl; rw [hcm]; omega) hle
   have hq1' : Runs (getDirectoryCounts (eocdOfG g) g.eocdPos) (buildG g)
       (g.eocdPos + 22 + g.base.comment.length) (.ok (g.base.pre.length, g.cdStart, g.cdList.length)) q1 := by
     refine hq1.cast ?_ rfl
